@@ -515,10 +515,13 @@ def container_render_order(ctx: Ctx, rep: Report, rid: str = "R06.6") -> None:
 
     rep.rule(rid)
     n = 0
+    from .normalise import normalised as _nrm
+
     for q in ("AddrGroup.line.getter", "AceGroup.line.getter", "Acl.line.getter"):
         f = ctx.prog.find_func(q)
         if f is None:
             continue
+        f = _nrm(ctx, f, "decomp")  # a flattening written as a nested comprehension is read as the loops it stands for
         n += 1
         rep.instance()
         senv = single_env(f.node)
